@@ -25,6 +25,8 @@ pub struct ModularFrameSpec {
     /// extra bits written in LfGlobal before lf_dequant (patches / splines / noise dictionaries)
     pub lf_global_prefix: Option<BitWriter>,
     pub sel: Sel,
+    /// with local trees: group streams in odd TOC sections use this tree instead
+    pub alt_tree: Option<Node>,
 }
 
 impl ModularFrameSpec {
@@ -43,6 +45,7 @@ impl ModularFrameSpec {
             toc_code: CodeOpts { use_prefix: true, ..Default::default() },
             lf_global_prefix: None,
             sel: Sel::default(),
+            alt_tree: None,
         }
     }
 }
@@ -119,6 +122,13 @@ pub fn write_modular_frame(img: &ImageHeader, spec: &ModularFrameSpec) -> Encode
         }
     }
     let tree = Tree::new(&spec.tree);
+    let alt = spec.alt_tree.as_ref().filter(|_| !spec.global_tree).map(Tree::new);
+    let tree_for = |section: usize| -> &Tree {
+        match &alt {
+            Some(a) if section % 2 == 1 => a,
+            _ => &tree,
+        }
+    };
 
     // streams
     let mut streams: Vec<Stream> = Vec::new();
@@ -192,7 +202,7 @@ pub fn write_modular_frame(img: &ImageHeader, spec: &ModularFrameSpec) -> Encode
         let mut sub: Vec<Channel> = s.parts.iter().map(|&(c, x0, y0, w, h)| channels[c].crop(x0, y0, w, h)).collect();
         let mut syms = Vec::new();
         let n = sub.len();
-        tokenize_channels(&mut sub, 0..n, s.stream_index, &tree, &spec.wp, &mut syms);
+        tokenize_channels(&mut sub, 0..n, s.stream_index, tree_for(s.section), &spec.wp, &mut syms);
         // write back adjusted samples
         for (k, &(c, x0, y0, w, h)) in s.parts.iter().enumerate() {
             for y in 0..h {
@@ -254,9 +264,12 @@ pub fn write_modular_frame(img: &ImageHeader, spec: &ModularFrameSpec) -> Encode
             let c = match &global_code {
                 Some(c) => c.clone(),
                 None => {
-                    tree_spec.write_header(&mut sw);
-                    tree_spec.write_symbols(&mut sw, &tree_syms);
-                    let code = CodeSpec::build(tree.num_leaves, syms, &spec.code);
+                    let t = tree_for(s.section);
+                    let tsyms = t.tokens();
+                    let tspec = CodeSpec::build(6, &tsyms, &spec.tree_code);
+                    tspec.write_header(&mut sw);
+                    tspec.write_symbols(&mut sw, &tsyms);
+                    let code = CodeSpec::build(t.num_leaves, syms, &spec.code);
                     code.write_header(&mut sw);
                     code
                 }
